@@ -83,6 +83,14 @@ def objective_can_be_negative_only(spec):
 def check_case(case):
     spec = case["spec"]
     fails = []
+    pre = case.get("pre")
+    built_from = spec
+    if pre:
+        # the model is built and optimised first, then some bounds are changed; the analysis must reflect the model as it is now
+        spec = json.loads(json.dumps(spec))
+        for r in spec["rxns"]:
+            if r["id"] in pre["bounds"]:
+                r["lb"], r["ub"] = pre["bounds"][r["id"]]
     work = opened(spec) if case.get("open_exchanges") else spec
     truth = true_blocked(work)
     if truth is None:
@@ -90,7 +98,11 @@ def check_case(case):
     rids = [r["id"] for r in spec["rxns"]]
     with warnings.catch_warnings():
         warnings.simplefilter("ignore")
-        m = coreops.build_model(spec)
+        m = coreops.build_model(built_from)
+        if pre:
+            m.optimize()
+            for rid, (lo, hi) in pre["bounds"].items():
+                m.reactions.get_by_id(rid).bounds = float(F(lo)), float(F(hi))
         if case["kind"] == "blocked":
             rl = case.get("reaction_list")
             arg = None if rl is None else ([m.reactions.get_by_id(x) for x in rl] if case["as_objects"] else list(rl))
@@ -136,10 +148,14 @@ def check_case(case):
 def gen_case(rng):
     spec = gen_spec(rng)
     rids = [r["id"] for r in spec["rxns"]]
+    pre = None
+    if rng.random() < 0.45:
+        pre = {"bounds": {r: rng.choice([["0", "0"], ["0", "0"], ["0", "10"], ["-10", "0"], ["-1000", "1000"]])
+                          for r in rng.sample(rids, rng.randint(1, min(2, len(rids))))}}
     if rng.random() < 0.7:
-        return {"kind": "blocked", "spec": spec, "open_exchanges": rng.random() < 0.35,
+        return {"kind": "blocked", "spec": spec, "pre": pre, "open_exchanges": rng.random() < 0.35,
                 "reaction_list": rng.sample(rids, rng.randint(1, len(rids))) if rng.random() < 0.4 else None, "as_objects": rng.random() < 0.5}
-    return {"kind": "fastcc", "spec": spec, "open_exchanges": False}
+    return {"kind": "fastcc", "spec": spec, "pre": pre, "open_exchanges": False}
 
 
 def public(case):
@@ -164,9 +180,10 @@ def run(ctx):
     skipped, kinds = {}, {"blocked": 0, "fastcc": 0, "open_exchanges": 0, "fastcc_known_drops": 0}
     distinct = set()
     samples = []
+    corpus = common.load_corpus("C19")
     while ran < n and tries < n * 3 and not ctx.violations:
         tries += 1
-        case = gen_case(rng)
+        case = corpus.pop(0) if corpus else gen_case(rng)
         fails, why = check_case(case)
         if fails is None:
             skipped[why] = skipped.get(why, 0) + 1
